@@ -91,12 +91,15 @@ func (f *c16Fixture) counter(name string) int {
 	return -1
 }
 
-var c16Methods = []string{"PostingsOffsets", "LabelValues", "LabelNames", "PostingsOffset", "LookupSymbol"}
+var c16Methods = []string{"PostingsOffsets", "LabelValues", "LabelNames", "PostingsOffset", "LookupSymbol", "IndexVersion"}
 
 // c16Call runs the k-th kind of Reader method on r; the returned closure reads the answer the way
 // a consumer does (it touches every byte of every returned string) and renders it canonically.
 func c16Call(r indexheader.Reader, k int) (func() string, error) {
-	switch k % 5 {
+	switch k % 6 {
+	case 5:
+		v, err := r.IndexVersion()
+		return func() string { return fmt.Sprint(v) }, err
 	case 0:
 		rs, err := r.PostingsOffsets("a", "a1", "a3", "a3", "a5x", "a9")
 		return func() string { return fmt.Sprint(rs) }, err
@@ -262,7 +265,7 @@ func c16Child(args []string) {
 		return
 	}
 	defer f.close()
-	want := make([]string, 5)
+	want := make([]string, 6)
 	for k := range want {
 		want[k], _ = c16Query(f.ref, k)
 	}
@@ -328,7 +331,7 @@ func c16Child(args []string) {
 			}()
 			r := hlib.NewRand(seed*7919 + uint64(g))
 			for i := 0; i < calls && bad.Load() == nil; i++ {
-				k := r.Intn(5)
+				k := r.Intn(6)
 				method = c16Methods[k]
 				var rd indexheader.Reader = f.lz
 				if r.Chance(1, 3) {
